@@ -128,8 +128,32 @@ def enc_op(o):
     return "get@" + enc_gkey(o["k"])
 
 
+_VARIANT = None
+
+
+def code_variant():
+    """which of the anticipated repairs the code under test contains (probed once per run on orix itself with the
+    witnesses of the two findings): 'v<a><b>', a = constructor drops the caller's not_indexed entry,
+    b = phases_in_data keeps the id of a single phase.  The model variant compared against is chosen accordingly,
+    so a `fix:` commit of either finding keeps the correspondence green."""
+    global _VARIANT
+    if _VARIANT is None:
+        from orix.crystal_map import CrystalMap, PhaseList
+        from orix.quaternion import Rotation
+        with warnings.catch_warnings():
+            warnings.simplefilter("ignore")
+            pl = PhaseList(names=["a", "b"])
+            pl.add_not_indexed()
+            xm = CrystalMap(Rotation.identity((3,)), phase_id=np.array([0, 1, 2]), x=np.arange(3), phase_list=pl)
+            a = "0" if "not_indexed" in [p.name for i, p in xm.phases if int(i) != -1] else "1"
+            xm = CrystalMap(Rotation.identity((3,)), phase_id=np.array([0, 1, 1]), x=np.arange(3))
+            b = "1" if [int(i) for i in xm[xm.phase_id == 1].phases_in_data.ids] == [1] else "0"
+        _VARIANT = "v" + a + b
+    return _VARIANT
+
+
 def case_line(c):
-    return " ".join(["xmap", "c12", str(c["ny"]), str(c["nx"]), G.ints(c["pid"]), G.bits(c["mask"]),
+    return " ".join(["xmap", "c12", code_variant(), str(c["ny"]), str(c["nx"]), G.ints(c["pid"]), G.bits(c["mask"]),
                      G.enc_props(c["props"]), enc_plform(c["pl"])] + [enc_op(o) for o in c["ops"]])
 
 
@@ -654,8 +678,9 @@ def gen_plform(rng, uniq):
     if form == "S":
         return {"form": "S", "phase": gen_phase(rng, 1, pool), "id": None if ids is None or not ids else int(ids[0])}, "single"
     phases = [gen_phase(rng, j + 1, pool) for j in range(m)]
-    if idk == "with-1" and phases:
-        phases[0] = ["not_indexed", None, phases[0][2]]
+    if idk == "with-1" and phases and ids is not None and -1 in ids[:len(phases)]:
+        j = ids.index(-1)        # a caller list in which -1 (and only -1) is the not_indexed phase
+        phases[j] = ["not_indexed", None, phases[j][2]]
     # mostly distinct names (duplicates are allowed by the constructor and appear sometimes)
     if rng.integers(3):
         seen = set()
@@ -902,6 +927,11 @@ def generate(ctx):
 
 def run(ctx, status):
     driver_ok = lean_phase(ctx, status, ["OrixProofs.Properties.C12"])
+    v = code_variant()
+    ctx.extra["model_variant"] = v
+    if v != "v00":
+        ctx.note(f"the code under test contains repair(s) {v} (constructor drops caller's not_indexed / "
+                 f"phases_in_data keeps the single phase's id): compared against the repaired model variant")
     if ctx.replay:
         site, case, body = sites.load_replay(ctx.replay)
         if site in SITES:
